@@ -201,3 +201,93 @@ Example C15_serve_example :
                 [(1, (None,0))]%N)
      = RFailure (str "hook returned 10 objects instead of 1").
 Proof. repeat split; vm_compute; reflexivity. Qed.
+
+(* ---- hooks with execution-rate settings, several requests served by one operator (C15_Model
+        part 4: every step goes through the hook-run task, whose first action is
+        RateLimitWait(context.Background()); C15_Spec part 3) ----
+
+   [admits b]: the limiter has no limit or a burst of at least 1.  A hook's limiter is made
+   from its settings once (create_rate_limiter) and Wait never changes limit or burst. *)
+
+(* settings that allow the hook to run at all give a limiter that admits, all others do not *)
+Theorem C15_runnable_settings_admit : forall s, runnable s = true -> admits (create_rate_limiter s) = true.
+Proof. exact runnable_admits. Qed.
+Print Assumptions C15_runnable_settings_admit.
+
+(* a rate-limited hook is DELAYED, never skipped: whatever the limiter's tokens and whatever the
+   clock reads, Wait(context.Background()) returns nil, at an instant not before the call, and the
+   limiter still admits afterwards *)
+Theorem C15_wait_delays_never_refuses : forall b t, admits b = true ->
+  exists b' t', rate_limit_wait b t = (b', Some t') /\ admits b' = true /\ (t <= t')%Z.
+Proof. exact wait_admitted. Qed.
+Print Assumptions C15_wait_delays_never_refuses.
+
+(* hence, for every rule set, assignment of rules to hooks, settings in the domain, clock, and
+   every sequence of requests (chains, outcomes, objects): each request gets exactly the hook
+   runs and the answer it gets from hooks without settings - [serve], about which the theorems
+   above speak - however closely the requests follow each other *)
+Theorem C15_session_is_serve : forall rules owners hsets clock qs, settings_in_domain hsets = true ->
+  serve_session rules owners (initial_limiters hsets, clock) qs = map serve_plain qs.
+Proof. exact session_is_serve. Qed.
+Print Assumptions C15_session_is_serve.
+
+(* the same from any limiter state that admits (tokens used up by earlier executions for other
+   bindings, a bucket in debt, a clock that jumps) *)
+Theorem C15_session_admitted : forall rules owners qs lims clock, Forall (fun b => admits b = true) lims ->
+  serve_session rules owners (lims, clock) qs = map serve_plain qs.
+Proof. exact session_admitted. Qed.
+Print Assumptions C15_session_admitted.
+
+(* and every request of the session satisfies the property's predicate *)
+Theorem C15_session_meets_spec : forall rules owners hsets clock qs, settings_in_domain hsets = true ->
+  all_P_session qs (serve_session rules owners (initial_limiters hsets, clock) qs) = true.
+Proof. exact session_meets_spec. Qed.
+Print Assumptions C15_session_meets_spec.
+
+(* in general (settings outside the domain included) the hook runs and the answers depend on the
+   limiters only through which of them admit: not on tokens, not on the clock.  This is why the
+   correspondence needs no clock readings from the implementation. *)
+Theorem C15_session_state_irrelevant : forall rules owners qs lims clock lims' clock',
+  map admits lims = map admits lims' ->
+  serve_session rules owners (lims, clock) qs = serve_session rules owners (lims', clock') qs.
+Proof. exact session_state_irrelevant. Qed.
+Print Assumptions C15_session_state_irrelevant.
+
+(* outside the domain: a hook whose limiter never admits (positive interval, negative burst) is
+   not executed - Wait fails, the task answers "Repeat", nobody repeats a conversion task, and
+   conversionEventHandler finds no "conversionResponse" prop.  Recorded as a fact of the model
+   (and of the code: corpus case "never-runnable"); such a configuration allows no execution of
+   the hook for any binding, so the Spec does not judge it (C15_Spec.runnable). *)
+Theorem C15_unrunnable_hook_refused : forall rules owners lims clock dtext desired r rest outs req,
+  extract req <> [] -> admits (lim_get lims (owner_of rules owners r)) = false ->
+  exists st', serve_lim rules owners (lims, clock) dtext desired (r :: rest) outs req
+              = ([], RFailure (msg_text dtext MPropError), st').
+Proof. exact unrunnable_hook_refused. Qed.
+Print Assumptions C15_unrunnable_hook_refused.
+
+(* non-vacuity: one hook (number 0) owns v1->v2 and v2->v3, executionMinInterval 40 ms, burst 1;
+   two requests v1->v3 at a clock that stands still (every Wait is called at instant 0): all four
+   steps run, both answers are Success; the second, third and fourth step were granted 40, 80 and
+   120 ms later *)
+Definition ex_lrules : list rule := [((None,0),(None,3)); ((None,3),(None,5))]%N.
+Definition ex_lq (base : N) : squery :=
+  (str "v3", (None,5), ex_lrules, [OResp [] [(base, (None,3))]; OResp [] [(base + 1, (None,5))]], [(1, (None,0))])%N.
+
+Example C15_session_example :
+  settings_in_domain [Some (40000000, 1)%Z] = true
+  /\ serve_session ex_lrules [0; 0]%N (initial_limiters [Some (40000000, 1)%Z], []) [ex_lq 100; ex_lq 200]
+     = [ ([(((None,0),(None,3)), [(1, (None,0))]); (((None,3),(None,5)), [(100, (None,3))])], RSuccess [(101, (None,5))]);
+         ([(((None,0),(None,3)), [(1, (None,0))]); (((None,3),(None,5)), [(200, (None,3))])], RSuccess [(201, (None,5))]) ]%N
+  /\ (let b0 := create_rate_limiter (Some (40000000, 1)%Z) in
+      let '(b1, g1) := rate_limit_wait b0 0 in
+      let '(b2, g2) := rate_limit_wait b1 0 in
+      let '(b3, g3) := rate_limit_wait b2 0 in
+      let '(_, g4) := rate_limit_wait b3 0 in
+      [g1; g2; g3; g4] = [Some 0; Some 40000000; Some 80000000; Some 120000000]%Z)
+  /\ runnable (Some (40000000, -1)%Z) = false
+  /\ admits (create_rate_limiter (Some (40000000, -1)%Z)) = false
+  /\ (let '(t, a, _) := serve_lim ex_lrules [0; 0]%N (initial_limiters [Some (40000000, -1)%Z], [])
+                                  (str "v3") (None,5)%N ex_lrules (snd (fst (ex_lq 100))) [(1, (None,0))]%N in
+      t = [] /\ a = RFailure (str "hook task prop error")
+      /\ P_handler (None,5)%N ex_lrules (snd (fst (ex_lq 100))) [(1, (None,0))]%N t a = false).
+Proof. repeat split; vm_compute; reflexivity. Qed.
